@@ -22,6 +22,7 @@ type UnitResult struct {
 	Trusted  bool
 	GenTime  float64
 	Lemma    bool
+	Inlined  bool
 }
 
 func (x *Exec) propsOf(c Clause, u *FuncUnit) []string {
@@ -37,6 +38,10 @@ func VerifyUnit(ld *Loaded, u *FuncUnit, cfg *Config) (res *UnitResult) {
 	res = &UnitResult{Unit: u.Pkg.Name + "." + u.Key, Pkg: u.Pkg.Path}
 	if u.C.Trusted || u.IfaceT != nil {
 		res.Trusted = true
+		return res
+	}
+	if u.C.Inline {
+		res.Inlined = true
 		return res
 	}
 	x := NewExec(ld, cfg)
@@ -78,6 +83,13 @@ func VerifyUnit(ld *Loaded, u *FuncUnit, cfg *Config) (res *UnitResult) {
 		args = append(args, v)
 	}
 	fr.args = args
+	for _, a := range args {
+		for _, l := range a.L {
+			if l.Sort.Kind != SArray {
+				x.inputs = append(x.inputs, l)
+			}
+		}
+	}
 	if u.Pre != nil {
 		pre, facts := x.runSpecF(u.Pre, st, nil, args)
 		x.assume(st, facts)
@@ -180,7 +192,9 @@ func VerifyLemma(ld *Loaded, lp *LPkg, l *LemmaUnit, cfg *Config) (res *UnitResu
 
 // ---------- discharge
 
-func (o *Obligation) query(all bool) string {
+func (o *Obligation) query(all bool) string { return o.queryOpt(all, false) }
+
+func (o *Obligation) queryOpt(all bool, absMul bool) string {
 	x := o.x
 	tb := x.tb
 	var as []*Term
@@ -217,7 +231,7 @@ func (o *Obligation) query(all bool) string {
 			}
 		}
 	}
-	return tb.Query(as, nil, all)
+	return tb.QueryOpt(as, x.inputs, all, absMul)
 }
 
 // a fact is relevant when its left-most uninterpreted application (the axiomatised term) is in the cone
@@ -267,10 +281,20 @@ func Discharge(obls []*Obligation, cfg *Config, workers int) {
 var genMu sync.Mutex
 
 func dischargeOne(o *Obligation, cfg *Config) {
+	if o.Status != "" {
+		return
+	}
 	// query generation touches the shared term builder of the unit: serialise per exec
 	o.x.mu.Lock()
 	qp := o.query(false)
 	qa := o.query(true)
+	qm := ""
+	if !o.Cover && strings.Contains(qp, "(bvmul t") {
+		qm = o.queryOpt(false, true)
+		if !strings.Contains(qm, "absmul") {
+			qm = ""
+		}
+	}
 	o.x.mu.Unlock()
 	o.QuerySz = len(qp)
 	if cfg.DumpDir != "" {
@@ -281,10 +305,10 @@ func dischargeOne(o *Obligation, cfg *Config) {
 		o.Res = SolveResult{Status: "toolarge"}
 		return
 	}
-	r := Solve(qp, qa, cfg.TimeoutMs)
+	r := Solve(qp, qa, qm, cfg.TimeoutMs)
 	if r.Status != "unsat" && r.Status != "sat" {
 		// one retry with a doubled budget (loaded machine)
-		r2 := Solve(qp, qa, cfg.TimeoutMs*2)
+		r2 := Solve(qp, qa, qm, cfg.TimeoutMs*2)
 		r2.Tried = append(r.Tried, r2.Tried...)
 		r = r2
 	}
